@@ -1480,6 +1480,15 @@ pub struct C08Cfg {
     /// a third node that stays up throughout, so that the leader keeps a majority while the follower is away
     #[serde(default)]
     pub third_node: bool,
+    /// scenario 1: simulated ms that pass before the follower goes away, so that the writes made until then have reached it
+    /// (the workload's writes take no simulated time on the leader; without a pause the follower leaves with an empty state)
+    #[serde(default)]
+    pub pause_before_away_ms: u64,
+    /// scenario 1 with a third node: node 1 is stopped and started again before the follower comes back. A leader that was
+    /// up all the time holds every entry the follower missed in its replication stream's buffer and never needs the
+    /// snapshot; after a restart (node 1 or node 3 leads then) the stream starts from storage, where the entries are compacted
+    #[serde(default)]
+    pub leader_restart_before_connect: bool,
 }
 
 /// Recorded defects that a kill of the follower inside an InstallSnapshot transfer can expose (each with the evidence that
@@ -1550,6 +1559,17 @@ fn stale_extras(leader: &Obs, follower: &Obs) -> Option<Vec<String>> {
         }
     }
     f.ns.retain(|x| leader.ns.iter().any(|l| l.0 == x.0));
+    // a user namespace removed on the leader whose tenant still holds configurations: the leader lists it as a weak
+    // namespace (named after its id, no USER flag), the follower still as the user namespace it was (entries are "name#flags")
+    let flags = |v: &str| v.rsplit('#').next().and_then(|x| x.parse::<u32>().ok()).unwrap_or(0);
+    for x in f.ns.iter_mut() {
+        if let Some(l) = leader.ns.iter().find(|l| l.0 == x.0) {
+            if l.1 != x.1 && flags(&l.1) & 2 == 0 && flags(&x.1) & 2 != 0 && l.1.starts_with(&format!("{}#", l.0)) {
+                extras.push(format!("user namespace {} ({})", x.0, x.1));
+                x.1 = l.1.clone();
+            }
+        }
+    }
     f.users.retain(|x| leader.users.iter().any(|l| l.0 == x.0));
     f.listing.retain(|x| leader.listing.contains(x));
     if f == *leader && !extras.is_empty() {
@@ -1584,6 +1604,25 @@ async fn replication_stuck_signature(n1: &NodeH, n2: &NodeH) -> Option<String> {
     Some(format!("after a snapshot transfer that was interrupted by a kill of the follower and then completed, the follower stays at log index {} (state {:?}) while the leader is at {} (snapshot {:?}); the leader no longer holds entry {} and its replication stream keeps sending later entries the follower must refuse, once per heartbeat, instead of a snapshot", m2.last_log_index, m2b.state, m1.last_log_index, lsnap, f_next))
 }
 
+/// The config history-id block end (`T_SEQUENCE/SEQ_CONFIG`) is not replicated state: the leader's value moves with every
+/// publish it *accepts* (ids are drawn before the raft proposal, so a publish that fails to commit burns ids), a follower's
+/// only with block markers it applies. C08's statement is about configuration, namespace and user data: the leader/follower
+/// comparison leaves the record out when the follower's value is below the leader's. Whether ids are ever issued twice
+/// (what a mark that is too low on a future leader would lead to) is C19's statement and checked there.
+fn without_cfg_seq_mark(l: &Obs, f: &Obs) -> (Obs, Obs) {
+    let val = |o: &Obs| o.records.iter().find(|r| r.0 == "T_SEQUENCE" && r.1 == b"SEQ_CONFIG").map(|r| r.2.iter().fold(0u64, |a, b| (a << 8) | *b as u64));
+    let (vl, vf) = (val(l), val(f));
+    let (mut l2, mut f2) = (l.clone(), f.clone());
+    if let (Some(vl), Some(vf)) = (vl, vf) {
+        if vf < vl {
+            sim::count("probe.leader_history_id_mark_ahead_of_follower", 1);
+            l2.records.retain(|r| !(r.0 == "T_SEQUENCE" && r.1 == b"SEQ_CONFIG"));
+            f2.records.retain(|r| !(r.0 == "T_SEQUENCE" && r.1 == b"SEQ_CONFIG"));
+        }
+    }
+    (l2, f2)
+}
+
 pub async fn exec_c08(script: Value) -> ExecResult {
     let id = "C08";
     let seed = script["seed"].as_u64().unwrap_or(1);
@@ -1604,7 +1643,7 @@ pub async fn exec_c08(script: Value) -> ExecResult {
     let mut installed = false;
     let mut findings = vec![];
     let body = async {
-        let n1 = start_node(&root, 1, true, None, &cfg.base.node).await.map_err(|e| Violation::new("harness.start", e.to_string()))?;
+        let mut n1 = start_node(&root, 1, true, None, &cfg.base.node).await.map_err(|e| Violation::new("harness.start", e.to_string()))?;
         vensure!(wait_leader(&n1, 20_000).await.is_some(), &format!("{}.setup_no_leader", id), "node 1 did not become leader");
         advance(16_000).await;
         let mut m = WModel::default();
@@ -1630,6 +1669,14 @@ pub async fn exec_c08(script: Value) -> ExecResult {
         }
         for (i, st) in steps.iter().enumerate() {
             if cfg.scenario == 1 && i == cfg.before.min(steps.len() - 1) {
+                if cfg.pause_before_away_ms > 0 {
+                    advance(cfg.pause_before_away_ms).await;
+                    if let Some(f) = node(2) {
+                        if metrics(&f).last_applied + 1 >= metrics(&n1).last_applied && i > 0 {
+                            sim::count("probe.follower_left_with_replicated_state", 1);
+                        }
+                    }
+                }
                 if cfg.kill {
                     kill_node(2).await;
                 } else {
@@ -1658,6 +1705,15 @@ pub async fn exec_c08(script: Value) -> ExecResult {
                 advance(200).await;
             }
         }
+        if cfg.leader_restart_before_connect && cfg.third_node && cfg.scenario == 1 {
+            advance(500).await;
+            stop_node(1).await;
+            advance(300).await;
+            n1 = start_node(&root, 1, true, None, &cfg.base.node).await.map_err(|e| Violation::new(&format!("{}.restart_failed", id), e.to_string()))?;
+            vensure!(wait_leader(&n1, 30_000).await.is_some(), &format!("{}.setup_no_leader", id), "no leader among nodes 1 and 3 after node 1 was restarted");
+            advance(3_000).await;
+            sim::count("probe.leader_restarted_before_follower_returns", 1);
+        }
         let snap_before = match n1.app.raft_store.get_current_snapshot().await { Ok(Some(s)) => s.index, _ => 0 };
         if cfg.kill_on_snapshot_msg > 0 {
             set_msg_trigger("RaftSnapshotRequest", 2, cfg.kill_on_snapshot_msg, cfg.kill_after_handling);
@@ -1674,13 +1730,41 @@ pub async fn exec_c08(script: Value) -> ExecResult {
                 }
             });
         }
+        if std::env::var("RNSIM_C08_DEBUG").is_ok() {
+            if let Some(f) = node(2) {
+                eprintln!("dbg before connect: follower (log,applied)={:?} K={:?} leader (log,applied,snap)={:?}", (metrics(&f).last_log_index, metrics(&f).last_applied), cfg_get(&f, cfg_key(0, 1, 2)).await.ok().flatten().map(|x| x.0), (metrics(&n1).last_log_index, metrics(&n1).last_applied, snap_before));
+                let es = n1.app.raft_store.get_log_entries(1, metrics(&n1).last_log_index + 1).await.unwrap_or_default();
+                eprintln!("dbg leader log holds {} entries, first {:?}", es.len(), es.first().map(|e| e.index));
+                for a in [10u64, 15, 16, 50, 90] {
+                    let es = n1.app.raft_store.get_log_entries(a, metrics(&n1).last_log_index + 1).await.unwrap_or_default();
+                    eprintln!("dbg leader get_log_entries({}, end) -> {} entries, first {:?}", a, es.len(), es.first().map(|e| e.index));
+                }
+            }
+        }
         // connect the follower
         if cfg.scenario == 0 || cfg.kill {
             start_node(&root, 2, false, Some(1), &cfg.base.node).await.map_err(|e| Violation::new("harness.start", e.to_string()))?;
         } else {
             heal_all();
         }
+        let term_at_connect = metrics(&n1).current_term;
         sim::event("follower connected");
+        if std::env::var("RNSIM_C08_DEBUG").is_ok() {
+            actix_rt::spawn(async move {
+                let mut last = String::new();
+                for _ in 0..3000 {
+                    tokio::time::sleep(std::time::Duration::from_millis(2)).await;
+                    if let Some(f) = node(2) {
+                        let k = cfg_get(&f, cfg_key(0, 1, 2)).await.ok().flatten().map(|x| x.0);
+                        let cur = format!("K={:?} (log,applied)={:?} snap={:?}", k, (metrics(&f).last_log_index, metrics(&f).last_applied), f.app.raft_store.get_current_snapshot().await.ok().flatten().map(|s| s.index));
+                        if cur != last {
+                            eprintln!("dbg t={} {}", sim::now_us() / 1000, cur);
+                            last = cur;
+                        }
+                    }
+                }
+            });
+        }
         // a leader whose snapshot policy is not met answers a follower that needs a snapshot in a tight loop
         // (no simulated time passes); writes arriving meanwhile let it compact. A client keeps writing.
         let n1b = n1.clone();
@@ -1725,10 +1809,15 @@ pub async fn exec_c08(script: Value) -> ExecResult {
             };
             obs_l = observe(&n1, "L").await.map_err(|e| Violation::new(&format!("{}.observe_failed", id), e.to_string()))?;
             let obs_f = observe(&n2, "F").await.map_err(|e| Violation::new(&format!("{}.observe_failed", id), e.to_string()))?;
+            let (obs_l2, obs_f) = without_cfg_seq_mark(&obs_l, &obs_f);
+            obs_l = obs_l2;
             if let Ok(Some(s)) = n2.app.raft_store.get_current_snapshot().await {
                 if s.index > 0 {
                     installed = true;
                 }
+            }
+            if std::env::var("RNSIM_C08_DEBUG").is_ok() {
+                eprintln!("dbg t={} follower cfg present: {:?} | leader: {:?} | m2 {:?}", sim::now_us() / 1000, obs_f.cfg.iter().filter(|(_, v)| v.is_some()).map(|(k, _)| k.clone()).collect::<Vec<_>>(), obs_l.cfg.iter().filter(|(_, v)| v.is_some()).map(|(k, _)| k.clone()).collect::<Vec<_>>(), (metrics(&n2).last_log_index, metrics(&n2).last_applied));
             }
             if obs_l == obs_f {
                 ok = true;
@@ -1737,12 +1826,24 @@ pub async fn exec_c08(script: Value) -> ExecResult {
             last = obs_diff(&obs_l, &obs_f);
             last_f = Some(obs_f);
         }
-        // the background client's key is exempt from the model (whatever the leader serves is the model)
-        {
-            let bk = key_str(2, 1, 4);
-            match obs_l.cfg.get(&bk).cloned().flatten() {
+        // the background client's key is exempt from the model (whatever the leader serves is the model); so is the key of the
+        // client that writes while the follower catches up when the term changed meanwhile (a follower that was cut off
+        // returns with a higher term and forces an election; what async-raft-ext does to writes in flight then is C06's matter)
+        let mut exempt = vec![key_str(2, 1, 4)];
+        if metrics(&n1).current_term != term_at_connect {
+            exempt.push(key_str(2, 1, 3));
+            sim::count("probe.election_while_follower_catches_up", 1);
+        }
+        // (after a restart of node 1 the leader may be node 3; node 1 then applies an acknowledged write a moment later)
+        let lead_id = metrics(&n1).current_leader.unwrap_or(1);
+        let obs_model = match node(lead_id) {
+            Some(ld) if lead_id != 1 => observe(&ld, "L3").await.map_err(|e| Violation::new(&format!("{}.observe_failed", id), e.to_string()))?,
+            _ => obs_l.clone(),
+        };
+        for bk in exempt {
+            match obs_model.cfg.get(&bk).cloned().flatten() {
                 Some(v) => {
-                    let mut h: Vec<String> = obs_l.hist.get(&bk).cloned().unwrap_or_default().into_iter().map(|x| x.1).collect();
+                    let mut h: Vec<String> = obs_model.hist.get(&bk).cloned().unwrap_or_default().into_iter().map(|x| x.1).collect();
                     h.reverse();
                     m.cfg.insert(bk, CfgModelEntry { content: v.0, typ: v.2, desc: v.3, history: h });
                 }
@@ -1751,7 +1852,7 @@ pub async fn exec_c08(script: Value) -> ExecResult {
                 }
             }
         }
-        check_cfg_model(id, &obs_l, &m, "leader")?;
+        check_cfg_model(id, &obs_model, &m, "leader")?;
         // (the follower's own compaction gives it a snapshot as well: what counts is a transfer from the leader)
         installed = installed && sim::counter("net.snapshot_chunks_to_n2") > 0;
         if installed {
@@ -1852,6 +1953,7 @@ pub async fn exec_c08(script: Value) -> ExecResult {
                 advance(1_000).await;
                 let obs_l = observe(&n1, "L").await.map_err(|e| Violation::new(&format!("{}.observe_failed", id), e.to_string()))?;
                 let obs_f = observe(&n2, "F").await.map_err(|e| Violation::new(&format!("{}.observe_failed", id), e.to_string()))?;
+                let (obs_l, obs_f) = without_cfg_seq_mark(&obs_l, &obs_f);
                 if obs_l == obs_f {
                     ok2 = true;
                     digest = obs_digest(&obs_f);
@@ -1981,8 +2083,16 @@ impl Check for C08 {
             cfg.restart_follower_at_end = true;
             cfg.third_node = true;
         }
+        // (a follower that was killed, not one that was cut off: the latter returns with an inflated term and forces an
+        // election on top of the restart, which leads into the dependency's leader-change defects recorded under C06)
+        if cfg.scenario == 1 && !cfg.third_node && Rng::derive(seed, "C08.leader_restart", 0).chance(0.4) {
+            cfg.third_node = true;
+            cfg.leader_restart_before_connect = true;
+            cfg.kill = true;
+        }
         let n = rng.range(cfg.base.node.snapshot_log_size + 5, 90);
         cfg.before = rng.range(0, 10) as usize;
+        cfg.pause_before_away_ms = *Rng::derive(seed, "C08.pause", 0).pick(&[0u64, 300, 1500, 1500]);
         let mut steps = vec![];
         let w = [50u32, 8, 8, 4, 3, 0, 0, 0, 0];
         for _ in 0..n {
